@@ -90,3 +90,43 @@ Example c15_roaming_example :
    ObSent [(wire_image toy_seal exB mt_transport 0 [7], 3)] 1 false; ObRd (RData [9; 9]); ObRd RBlock] /\
   addr_spec toy_seal toy_open 100 exB ex_history (remote exB) = 3.
 Proof. split; [exact ex_history_runs|vm_compute; reflexivity]. Qed.
+
+(* ---- at the receive loops (Model/RecvLoop.v; see Properties/C03.v for the loop model and its premises) ---- *)
+From Hop Require Import RecvLoop RecvLoopProofs RecvLoopCorollaries.
+
+(* for every sequence of datagrams (any bytes, length, type, source) and Handle calls on a server with any number
+   of sessions: session B's remoteAddr afterwards is the source of the last datagram — among those the loop
+   handed to handleSessionMessage carrying B's id — that authenticated under B's keys, was fresh and reached
+   the handler's tail; the initial address if there was none.  Datagrams for other sessions, handshake traffic,
+   truncated or mistyped datagrams never move it. *)
+Theorem c15_loop_addr_is_source_of_last_accepted :
+  forall seal open max H HS st evs B sB,
+    lookup (l_tab H st) B = Some sB -> l_crashed H (srv_run seal open max H HS st evs) = false ->
+    no_finish seal open max H HS B st evs ->
+    exists sB', lookup (l_tab H (srv_run seal open max H HS st evs)) B = Some sB' /\
+                remote sB' = addr_spec seal open max sB (evs_for B evs) (remote sB).
+Proof. exact srv_loop_addr. Qed.
+Print Assumptions c15_loop_addr_is_source_of_last_accepted.
+
+Theorem c15_client_loop_addr_is_source_of_last_accepted :
+  forall seal open max C CHS evs s s',
+    cli_run seal open max C CHS (COpen C s) evs = COpen C s' ->
+    remote s' = addr_spec seal open max s (cli_evs_for (sid s) evs) (remote s).
+Proof. exact cli_loop_addr. Qed.
+Print Assumptions c15_client_loop_addr_is_source_of_last_accepted.
+
+(* one step: an event not addressed to B cannot move B's address (nor anything else of B) *)
+Theorem c15_loop_other_traffic_keeps_addr :
+  forall seal open max H HS st e B sB,
+    lookup (l_tab H st) B = Some sB -> ev_for B e = [] -> step_quiet H HS B st e ->
+    option_map remote (lookup (l_tab H (srv_step seal open max H HS st e)) B) = Some (remote sB).
+Proof. intros. now rewrite (srv_step_other_session_untouched seal open max H HS st e B sB). Qed.
+Print Assumptions c15_loop_other_traffic_keeps_addr.
+
+(* the run of Properties/C03.v c03_loop_nonvacuous: B's address ends at 8 (source of its genuine close), after
+   a replay and a forgery from 4, mistyped copies from 5 and a truncated oversized copy from 6; C's is 7 *)
+Example c15_loop_roaming_example :
+  option_map remote (lookup (l_tab unit (srv_run toy_seal toy_open 100 unit ex_HS ex_lst ex_levs)) [1; 2; 3; 4]) = Some 8 /\
+  addr_spec toy_seal toy_open 100 exB (evs_for [1; 2; 3; 4] ex_levs) (remote exB) = 8 /\
+  option_map remote (lookup (l_tab unit (srv_run toy_seal toy_open 100 unit ex_HS ex_lst ex_levs)) [9; 9; 9; 9]) = Some 7.
+Proof. vm_compute. repeat split; reflexivity. Qed.
